@@ -54,7 +54,9 @@ def gen_item(rng, uid):
     elif r < 0.6:
         ident = ["zid", rand_zid(rng)]
     elif r < 0.8:
-        ident = ["modzid", short(rand_date(rng)), rand_zid(rng)]
+        z = rand_zid(rng)
+        # also: a modify date equal to the creation date the ZID carries
+        ident = ["modzid", z[:6] if rng.random() < 0.3 else short(rand_date(rng)), z]
     else:
         ident = ["long", rand_date(rng).isoformat()]
     lo = 1 if ident[0] == "long" and rng.random() < 0.9 else 0
